@@ -1,5 +1,6 @@
 """Pattern matching on provenance terms (semantic comparison, DESIGN 1.4): AC-matching of products and
 sums, audio-parameter roles instead of attribute spellings, constants by value."""
+import ast
 from .symex import ROLE_OF, flatten_product, flatten_sum, term_name, walk
 
 
@@ -24,12 +25,55 @@ class Pat:
 ANY = Pat(lambda t: True, '_')
 
 
+MODEL = None       # set by facts.Ctx: lets constant patterns see through module-level constants (X = 1000 ... int(s * X))
+
+
+def _fold(node, mod, depth=0):
+    """numeric value of a module-level constant expression built from number literals, + - * / // % ** and other such constants"""
+    if depth > 5:
+        raise ValueError
+    if isinstance(node, ast.Constant) and isinstance(node.value, (int, float)) and not isinstance(node.value, bool):
+        return node.value
+    if isinstance(node, ast.UnaryOp) and isinstance(node.op, (ast.USub, ast.UAdd)):
+        v = _fold(node.operand, mod, depth + 1)
+        return -v if isinstance(node.op, ast.USub) else v
+    if isinstance(node, ast.BinOp):
+        a, b = _fold(node.left, mod, depth + 1), _fold(node.right, mod, depth + 1)
+        ops = {ast.Add: lambda: a + b, ast.Sub: lambda: a - b, ast.Mult: lambda: a * b, ast.Div: lambda: a / b, ast.FloorDiv: lambda: a // b, ast.Mod: lambda: a % b, ast.Pow: lambda: a ** b}
+        if type(node.op) in ops:
+            try:
+                return ops[type(node.op)]()
+            except (ZeroDivisionError, OverflowError):
+                raise ValueError
+    if isinstance(node, ast.Name) and MODEL is not None and mod in MODEL.mods and node.id in MODEL.mods[mod]['consts'] and not MODEL.reassigned(mod, node.id):
+        return _fold(MODEL.mods[mod]['consts'][node.id], mod, depth + 1)
+    raise ValueError
+
+
+def _resolve_const(t):
+    """a module-level name bound once to a number (a literal or arithmetic over literals and other such names) is that number"""
+    if t[0] == 'g' and MODEL is not None:
+        lk = MODEL.lookup(t)
+        if lk and lk[0] == 'const' and not MODEL.reassigned(t[1], t[2]):
+            try:
+                return ('c', _fold(lk[1], t[1]))
+            except ValueError:
+                return t
+    return t
+
+
 def const(v):
-    return Pat(lambda t: t[0] == 'c' and t[1] == v and type(t[1]) == type(v), repr(v))
+    def f(t):
+        t = _resolve_const(t)
+        return t[0] == 'c' and t[1] == v and type(t[1]) == type(v)
+    return Pat(f, repr(v))
 
 
 def num(pred, desc='number'):
-    return Pat(lambda t: t[0] == 'c' and isinstance(t[1], (int, float)) and not isinstance(t[1], bool) and pred(t[1]), desc)
+    def f(t):
+        t = _resolve_const(t)
+        return t[0] == 'c' and isinstance(t[1], (int, float)) and not isinstance(t[1], bool) and pred(t[1])
+    return Pat(f, desc)
 
 
 NONE = Pat(lambda t: t == ('c', None), 'None')
@@ -162,4 +206,6 @@ def first_of(d, long_name, short_name, default=None):
     """d.get(long, d.get(short[, default]))  -- the 'long name wins' alias idiom"""
     inner_args = [const(short_name)] + ([default] if default is not None else [])
     inner = method(d, 'get', *inner_args)
+    if default is None:
+        inner = inner | method(d, 'get', const(short_name), const(None))        # d.get(short, None) is d.get(short)
     return method(d, 'get', const(long_name), inner)
